@@ -50,6 +50,7 @@ def concretise(case, rot):
             "doff": ["(Delay/15 s, Def/Aaa, Offset)", "(Delay/15000 ms, Offset, Def/AAA)", "(Delay/0.0000015 Ms, Def/Aaa, Offset)"][rot % 3]}
     hmap["ona"] = [a + ", " + hmap["on"], hmap["on"] + ", " + a][(rot // 2) % 2]
     hmap["offa"] = ["(Def/Aaa, Offset), " + a, a + ", (Offset, Def/aaa)"][(rot // 2) % 2]
+    hmap["onoff"] = ["(Def/Aaa, Onset), (Def/aaa, Offset)", "(Onset, Def/Aaa, (Ellipse)), (Offset, Def/Aaa)"][(rot // 3) % 2]
     sidecar = {"cat": {"HED": {"ka": a, "kb": b, "kbad": bad}}}
     cmap = {"a": "ka", "b": "kb", "bad": "kbad", "na": "n/a", "unk": "kzz"}
     rows = case["rows"]
